@@ -12,7 +12,7 @@ import (
 func init() {
 	Registry["C11"] = RuleDef{Module: ".", Run: runC11,
 		Technique:   "same-index correspondence rule over SSA values: paired appends to (commands, indexes) tables, placement of results through the paired index table, argument-pair agreement at the call sites that carry the tables",
-		Explanation: "Decides the index-map skeleton of batched cache reads: (R11a) wherever a cacheable command is filed into a per-connection or per-node batch (mux.DoMultiCache, cluster _pickMultiCache, resultcachefn re-queues), the same block files its original position into the sibling index table of the same batch object - the loop's own index when grouping the caller's batch, the carried original index cIndexes[i] of the very element commands[i] when re-queuing; (R11b) a reply is stored into the caller's result slice only at the index read from the index table at the reply's own position, the (indexes, commands, replies) triple handed to resultcachefn consists of sibling fields of one batch and the replies of executing exactly that command table; (R11c) helper doMultiCache pairs keys[i], the i-th command and the i-th reply by the same loop index.",
+		Explanation: "Decides the index-map skeleton of batched cache reads: (R11e) in pipe.DoMultiCache the request groups built per missed command and the stride/offset of every reply walk agree for each mode, and holes are refilled only after every cached or awaited reply was placed (R11d: the same for the partial MGET); (R11a) wherever a cacheable command is filed into a per-connection or per-node batch (mux.DoMultiCache, cluster _pickMultiCache, resultcachefn re-queues), the same block files its original position into the sibling index table of the same batch object - the loop's own index when grouping the caller's batch, the carried original index cIndexes[i] of the very element commands[i] when re-queuing; (R11b) a reply is stored into the caller's result slice only at the index read from the index table at the reply's own position, the (indexes, commands, replies) triple handed to resultcachefn consists of sibling fields of one batch and the replies of executing exactly that command table; (R11c) helper doMultiCache pairs keys[i], the i-th command and the i-th reply by the same loop index.",
 		NotDecided:  "the hole-refill walks in pipe.DoMultiCache / doCacheMGet (which positions are holes is data dependent) - the single-connection heart of the property; duplicates; the cache's answers."}
 	Registry["C20"] = RuleDef{Module: ".", Run: runC20,
 		Technique:   "same-index correspondence rule (as C11) on the cluster DoMulti tables, loop-bound identification for the transaction re-queue, tuple-agreement rule for pickMulti, slice-origin rule for lifetime recovery",
@@ -268,7 +268,145 @@ func stripLoad(v ssa.Value) ssa.Value {
 	return v
 }
 
+// strideAgreementRule (R11e): in pipe.DoMultiCache the request batch for the missed commands is
+// built in groups (OPT-IN, cmd) or (OPT-IN, MULTI, PTTL, cmd, EXEC) depending on one flag, and the
+// replies are walked with a stride and offset; writer and reader must agree per flag value, and
+// holes are refilled only after every served position was placed.
+func strideAgreementRule(r *Report) {
+	fn := r.FnAnchor("R11e", "rueidis.(*pipe).DoMultiCache")
+	if fn == nil {
+		return
+	}
+	flagPol := func(b *ssa.BasicBlock) (ssa.Value, bool, bool) {
+		for _, g := range DomGuards(b) {
+			if ph, ok := g.Cond.(*ssa.Phi); ok && shortType(ph.Type()) == "bool" {
+				return ph, g.Pol, true
+			}
+		}
+		return nil, false, false
+	}
+	group := map[bool]int{}
+	var flag ssa.Value
+	okW := true
+	nW := 0
+	for _, s := range CallSites(fn, "builtin.append") {
+		c := s.Instr.(*ssa.Call)
+		if !strings.HasSuffix(shortType(c.Type()), ".Completed") || !strings.HasPrefix(shortType(c.Type()), "[]") {
+			continue
+		}
+		es := variadicElemsOrdered(c.Call.Args[1])
+		f, pol, ok := flagPol(s.Block)
+		if !ok || len(es) == 0 {
+			continue
+		}
+		nW++
+		if flag == nil {
+			flag = f
+		}
+		if f != flag {
+			okW = false
+		}
+		if k, seen := group[pol]; seen && k != len(es) {
+			okW = false
+		}
+		group[pol] = len(es)
+	}
+	r.Ob("R11e", fn, "request-groups-per-mode", fn.Pos(), okW && nW >= 4 && len(group) == 2, fmt.Sprintf("every missed command contributes a group of fixed size chosen by one flag: %v", group))
+	// reply walks
+	nR := 0
+	for _, b := range fn.Blocks {
+		if !IsLoopHeader(b) {
+			continue
+		}
+		iff, ok := b.Instrs[len(b.Instrs)-1].(*ssa.If)
+		if !ok {
+			continue
+		}
+		cmp, ok := iff.Cond.(*ssa.BinOp)
+		if !ok || cmp.Op != token.LSS {
+			continue
+		}
+		ph, isphi := cmp.X.(*ssa.Phi)
+		lc, isl := cmp.Y.(*ssa.Call)
+		if !isphi || !isl || CalleeName(lc) != "builtin.len" || !strings.Contains(shortType(lc.Call.Args[0].Type()), "RedisResult") || ph.Block() != b {
+			continue
+		}
+		var off, stride int64 = -1, -1
+		for i, e := range ph.Edges {
+			if b.Dominates(b.Preds[i]) {
+				if bo, isb := e.(*ssa.BinOp); isb && bo.Op == token.ADD && bo.X == ssa.Value(ph) {
+					stride, _ = ConstInt(bo.Y)
+				}
+			} else if k, isc := ConstInt(e); isc {
+				off = k
+			}
+		}
+		if off < 0 || stride < 2 {
+			continue
+		}
+		f, pol, okf := flagPol(b)
+		if !okf || f != flag {
+			continue
+		}
+		nR++
+		want := group[pol]
+		r.ObSite("R11e", Site{fn, b, len(b.Instrs) - 1, iff}, "reply-walk-matches-request-groups", int(stride) == want && int(off) == want-1,
+			fmt.Sprintf("replies are walked with stride %d from offset %d; the request groups of this mode have %d commands with the command's own reply at offset %d", stride, off, want, want-1))
+	}
+	r.Anchor("R11e", "DoMultiCache: reply walks (4)", nR == 4)
+	// hole refill after served positions
+	type slotStore struct {
+		s    Site
+		hole bool
+	}
+	var stores []slotStore
+	for _, s := range Sites(fn, func(in ssa.Instruction) bool { _, ok := in.(*ssa.Store); return ok }) {
+		st := s.Instr.(*ssa.Store)
+		ia, ok := st.Addr.(*ssa.IndexAddr)
+		if !ok || shortType(st.Val.Type()) != "rueidis.RedisResult" || !strings.HasSuffix(DescDeep(ia.X), ".s") {
+			continue
+		}
+		hole := false
+		for _, g := range DomGuards(s.Block) {
+			x, op, y, cok := CmpGuard(g)
+			k, isk := ConstInt(y)
+			if cok && op == token.EQL && isk && k == 0 && strings.HasSuffix(Desc(x), ".typ") {
+				if _, ki, isel := elemOfDeep(x); isel && ki == ia.Index {
+					hole = true
+				}
+			}
+		}
+		stores = append(stores, slotStore{s, hole})
+	}
+	nH := 0
+	for _, h := range stores {
+		if !h.hole {
+			continue
+		}
+		nH++
+		late := ""
+		for _, o := range stores {
+			if o.hole {
+				continue
+			}
+			if hit, _ := Reaches(h.s, func(w Site) bool { return w.Instr == o.s.Instr }, nil); hit {
+				late = r.P.Pos(InstrPos(o.s.Instr))
+			}
+		}
+		// the lru fast path fills served positions inside Flights: it must not run after a refill either
+		if hit, _ := Reaches(h.s, func(w Site) bool {
+			c, isc := w.Instr.(ssa.CallInstruction)
+			return isc && CalleeName(c) == "rueidis.(*lru).Flights"
+		}, nil); hit {
+			late = "the Flights call"
+		}
+		r.ObSite("R11e", h.s, "holes-filled-after-all-served-positions", late == "", "a position is treated as a hole only after every cached or awaited reply was placed; a served position is still filled later at "+late)
+	}
+	r.Anchor("R11e", "DoMultiCache: hole refills (>= 2)", nH >= 2)
+}
+
 func runC11(r *Report) {
+	strideAgreementRule(r)
 	nA, nP := 0, 0
 	for _, name := range []string{"rueidis.(*mux).DoMultiCache", "rueidis.(*clusterClient)._pickMultiCache", "rueidis.(*clusterClient).resultcachefn"} {
 		if fn := r.FnAnchor("R11a", name); fn != nil {
